@@ -8,7 +8,7 @@ G = {
  'LEX':    [r'lexer\..*'],
  'PARSE':  [r'parser\..*'],
  'MATCH':  [r'matcher\..*'],
- 'FSM':    [r'fsm\.(\(\*State\)\.(apply|Parse|T|has|simplifySelf)|NewState|simplify|removeTransitionAt|sameArgs)'],
+ 'FSM':    [r'fsm\.(\(\*State\)\.(apply|Parse|T|has|simplifySelf)|NewState|simplify|removeTransitionAt|sameArgs|\(StateTransitions\)\.Less)'],
  'FILL':   [r'fsm\.fillContainers'],
  'VSET':   [r'values\.\(\*.*Value\)\.(Set|Clear|IsBoolFlag)', r'values\.IsBool', r'lemma\.builtinCapabilities'],
  'VENV':   [r'values\.(SetFromEnv|setMultivalued)'],
